@@ -171,7 +171,7 @@ func (cs *Contracts) LoadFile(path string, trusted bool) error {
 	return cs.parseLines(lines, trusted, home)
 }
 
-var labelRe = regexp.MustCompile(`^\[([A-Za-z0-9_.\-]+)\]\s*`)
+var labelRe = regexp.MustCompile(`^\[([A-Za-z0-9_.,\-]+)\]\s*`)
 var funcRe = regexp.MustCompile(`^func\s+(\S+?)\(([^)]*)\)\s*(?:\(([^)]*)\))?\s*$`)
 
 func splitNames(s string) []string {
